@@ -164,6 +164,11 @@ class HTTP(BaseComponent):
                 del self._clients[sock]
             res.done = True
             return
+        if res.stream and res.body and not hasattr(res.body, '__next__'):
+            # only an iterator can be streamed chunk by chunk; a str, bytes
+            # or list body (its size has been announced by prepare()) is
+            # written in one piece like any other response
+            res.stream = False
         if res.stream and res.body:
             try:
                 data = next(res.body)
